@@ -27,6 +27,13 @@ def cases(tier):
             members = [{'m': mm, 'cap': cc, 'values': 'sym'} for (mm, cc) in mix]
             cfg = {'scenario': 'batch', 'n': 4, 'x': 1, 'members': members, 'verify_order': list(perm), 'actions': ['VerifyOnly', 'RecoverAndVerify']}
             out.append({'cfg': cfg, 'kind': 'batch', 'name': 'batch (m,cap)=%s order %s' % (mix, list(perm))})
+    # ONE parameters object (clones of it) serving aggregates of different sizes one after the other, in every order: what a call gets from the
+    # object must not depend on which aggregate used it before (tables / caches kept inside or behind the object)
+    for (n, x, cap, ms) in [(4, 1, 4, (4, 1, 2)), (8, 2, 2, (2, 1))] + ([(2, 3, 8, (8, 1, 4)), (64, 1, 2, (2, 1))] if tier != 'quick' else []):
+        for perm in itertools.permutations(ms):
+            members = [{'m': mm, 'cap': cap, 'values': 'sym', 'share_params': True, 'seeded': mm == 1, 'label': 'member %d' % i} for i, mm in enumerate(perm)]
+            cfg = {'scenario': 'batch', 'n': n, 'x': x, 'members': members, 'actions': ['VerifyOnly', 'RecoverAndVerify']}
+            out.append({'cfg': cfg, 'kind': 'batch', 'name': 'one parameters object (capacity %d) used for aggregates %s in this order' % (cap, list(perm))})
     return out
 
 
